@@ -226,7 +226,7 @@ def seeds():
     return S
 
 
-ADV32 = [0, 1, 2, -1, -2, 2 ** 31 - 1, -2 ** 31, 0x7FFF, 0x8000, 0xFFFF, 0x10000, 12, 20, 24]
+ADV32 = [0, 1, 2, -1, -2, 2 ** 31 - 1, -2 ** 31, 0x7FFF, 0x8000, 0xFFFF, 0x10000, 12, 20, 24, -3, -4, -6, -8, -12, -16, -20, -24]
 
 
 def mutate(rng, b: bytes, how):
@@ -329,15 +329,54 @@ def small_field_grid():
     S = seeds()
     for seed, aux in S["vwsc"][:1]:
         hdr_len = 20
-        for v in list(range(0, 40)):
+        for v in list(range(-40, 40)):
             for pos in (0, 2, 4):
                 b = bytearray(seed[:400])
                 # find the first frame record behind the wrapper/header heuristically: the check does not need to be exact
                 for base in (hdr_len, hdr_len + 12, hdr_len + 20):
                     bb = bytearray(b)
                     if base + pos + 2 <= len(bb):
-                        bb[base + pos:base + pos + 2] = struct.pack(">H", v)
+                        bb[base + pos:base + pos + 2] = struct.pack(">h", v)
                         out.append(("vwsc", bytes(bb), {}, "grid-vwsc"))
+    # score, exact: a two-frame score built here (20-byte header, 3 channels of 20 bytes), with the frame record size, the
+    # delta size and the delta offset of the first / second delta of the first frame set to every value in -40..40 and the
+    # 16-bit extremes (a size whose negative equals the bytes just consumed makes a walker re-read the same header)
+    def score(recs):
+        body = b"".join(struct.pack(">h", 2 + sum(4 + len(d) for _, _, d in r) if sz is None else sz) +
+                        b"".join(struct.pack(">hh", len(d) if ds is None else ds, do) + d for ds, do, d in r) for sz, r in recs)
+        n = 20 + len(body)
+        return struct.pack(">iiihhhh", n, 0x14, len(recs), 4, 20, 3, 0) + body
+    vals = list(range(-40, 41)) + [0x7FFF, -0x8000, 0x7FFE, -0x7FFF]
+    tail = (None, [(None, 0, bytes(range(1, 9)))])
+    for v in vals:
+        out.append(("vwsc", score([(v, [(None, 0, bytes(8)), (None, 20, bytes(6))]), tail]), {}, "grid-vwsc-exact"))
+        for k in (0, 1):
+            d = [[None, 0, bytes(8)], [None, 20, bytes(6)]]
+            d[k][0] = v
+            out.append(("vwsc", score([(None, [tuple(x) for x in d]), tail]), {}, "grid-vwsc-exact"))
+            d = [[None, 0, bytes(8)], [None, 20, bytes(6)]]
+            d[k][1] = v
+            out.append(("vwsc", score([(None, [tuple(x) for x in d]), tail]), {}, "grid-vwsc-exact"))
+    return out
+
+
+def shared_record_grid():
+    """tables whose entries point into a common data area (font map: displacement -> length-prefixed name): MANY entries sharing
+    ONE record whose length field is adversarial (negative lengths make a slice end count from the end of the area), so that the
+    output would be entries x area unless the reader bounds the total by the area"""
+    out = []
+    def fmap(nfonts, cap, disps, area):
+        header = struct.pack(">hhhhiihhhhhh", 0, 0, 0, 0, nfonts, cap, 0, 8, 0, 0, 0, 0) + \
+            b"".join(struct.pack(">ihh", disps[i % len(disps)], 0, i & 0x7FFF) for i in range(cap))
+        return struct.pack(">ii", len(header), len(area)) + header + area
+    for alen in (64, 4000, 24000):
+        for nch in (-1, -2, -5, -alen + 8, -alen, 0, 1, alen - 4, alen, alen * 2, 2 ** 31 - 1, -2 ** 31):
+            area = struct.pack(">i", nch) + bytes(65 + i % 26 for i in range(alen - 4))
+            for nf in (1, 2, 40, 1500):
+                if 8 + 28 + 8 * nf + alen > 65536:
+                    continue
+                out.append(("fmap", fmap(nf, nf, [0], area), {}, "grid-shared-record"))
+                out.append(("fmap", fmap(nf, nf, [0, 8, 4], area), {}, "grid-shared-record"))
     return out
 
 
@@ -391,7 +430,32 @@ def _fam_lscr_shared_locals(n): return _lscr_fam("fam_shared_locals", n, 20 * n)
 def _fam_lscr_shared_code(n): return _lscr_fam("fam_shared_code", n, 10 * n)
 def _fam_lscr_shared_consts(n): return _lscr_fam("fam_shared_consts", 15 * n, 100 * n)
 
-FAMILIES_SCALING = dict(lscr_shared_locals=(_fam_lscr_shared_locals, 10), lscr_shared_code=(_fam_lscr_shared_code, 10),
+def _vwsc(recs, channels=3):
+    body = b"".join(struct.pack(">h", 2 + sum(4 + len(d) for _, d in r)) + b"".join(struct.pack(">hh", len(d), o) + d for o, d in r) for r in recs)
+    return struct.pack(">iiihhhh", 20 + len(body), 0x14, len(recs), 4, 20, channels, 0) + body
+def _fam_vwsc_frames(n):
+    return "vwsc", _vwsc([[(20 * (i % 3) + 4, bytes([1 + i % 60]))] for i in range(n)]), {}
+def _fam_vwsc_overrun(n):
+    # a delta run that starts at the end of the declared channel area (3 channels of 20 bytes), followed by ordinary small frames:
+    # a reader that lets the run grow its buffer decodes len(buffer)/20 channels in every later frame
+    return "vwsc", _vwsc([[(60, bytes(40 * n))]] + [[(4, bytes([1 + i % 60]))] for i in range(n)]), {}
+def _fam_vwsc_inrange_rewrites(n):
+    return "vwsc", _vwsc([[(0, bytes([i % 7 + 1]) * 60)] for i in range(n)]), {}
+def _fmap(nfonts, disps, area):
+    header = struct.pack(">hhhhiihhhhhh", 0, 0, 0, 0, nfonts, nfonts, 0, 8, 0, 0, 0, 0) + \
+        b"".join(struct.pack(">ihh", disps[i % len(disps)], 0, i & 0x7FFF) for i in range(nfonts))
+    return struct.pack(">ii", len(header), len(area)) + header + area
+def _fam_fmap_fonts(n):
+    area = b"".join(struct.pack(">i", 6) + b"Font%02d" % (i % 100) for i in range(n))
+    return "fmap", _fmap(n, [10 * i for i in range(n)], area), {}
+def _fam_fmap_shared(n):
+    area = struct.pack(">i", -5) + bytes(65 + i % 26 for i in range(8 * n))
+    return "fmap", _fmap(n, [0], area), {}
+
+
+FAMILIES_SCALING = dict(vwsc_frames=(_fam_vwsc_frames, 300), vwsc_overrun=(_fam_vwsc_overrun, 150), vwsc_rewrites=(_fam_vwsc_inrange_rewrites, 150),
+                        fmap_fonts=(_fam_fmap_fonts, 400), fmap_shared=(_fam_fmap_shared, 400),
+                        lscr_shared_locals=(_fam_lscr_shared_locals, 10), lscr_shared_code=(_fam_lscr_shared_code, 10),
                         lscr_shared_consts=(_fam_lscr_shared_consts, 40), vwlb_zigzag=(_fam_vwlb_zigzag, 1500), lscr_nested=(_fam_lscr_nested, 100), riff=(_fam_riff, 300), mmap=(_fam_mmap, 300), cas=(_fam_cas, 2000), key=(_fam_key, 500), locate=(_fam_locate, 500),
                         lscr_straight=(_fam_lscr_straight, 250), lscr_loops=(_fam_lscr_loops, 120), lscr_ifs=(_fam_lscr_ifs, 150))
 SCALING_MAX_RATIO = 2.6      # doubling the input may at most (a bit more than) double the executed lines
@@ -462,7 +526,7 @@ def cases(rng, tier):
             if tl:
                 lines = [tl] + lines
         return Case(kind=f"{name}:{kind}", spec=spec, lines=lines, expect=[None] * len(lines))
-    for name, data, aux, kind in small_field_grid() + snd_two_command_grid() + layout_pair_grid():
+    for name, data, aux, kind in small_field_grid() + snd_two_command_grid() + layout_pair_grid() + shared_record_grid():
         out.append(mk(name, data, aux, kind))
     for name in DECODERS:
         ss = S.get(name) or [(b"", {})]
